@@ -156,6 +156,17 @@ func runEnumCase(t *testing.T, r *rand.Rand, ranks [4]int, nowPos int, variant s
 	if r.Intn(2) == 0 {
 		state = nil
 	}
+	if (variant == "ordering" || variant == "ordering+reinit") && r.Intn(4) == 0 {
+		// the caller keeps the roots elsewhere: WithSkipStorage. The decision is the
+		// same, judged on the return value.
+		res, v := vkit.JudgeRotateSkipStorage(w, cfg, reinit)
+		c.Expected, c.Observed = string(res.Expected), string(res.Outcome)
+		rec.Case("enum/"+variant+"+skip-storage/"+c.Expected, fmt.Sprintf("%v|%d|%s|%v|skip", ranks, nowPos, variant, wrapper), true, func() any { return c })
+		if v.Key != "" {
+			vkit.Violate(t, prop, v.Key, v.What, c)
+		}
+		return
+	}
 	res, v := vkit.JudgeRotate(w, cfg, reinit, state)
 	c.Expected, c.Observed = string(res.Expected), string(res.Outcome)
 	if res.ReinitOverEmptyRefused {
